@@ -64,8 +64,14 @@ def finalState (M : Sys σ α) (key : σ → Nat) : List Nat → Option σ
 /-- `Path::encode`, before joining with `/` -/
 def encode (key : σ → Nat) (p : Path σ α) : List Nat := p.map fun e => key e.1
 
+/-- decimal fingerprints joined by `/` (characters of `format!("{}", fp)` ... `.join("/")`) -/
+def encodeChars : List Nat → List Char
+  | [] => []
+  | [a] => Nat.toDigits 10 a
+  | a :: b :: r => Nat.toDigits 10 a ++ '/' :: encodeChars (b :: r)
+
 /-- `Path::encode` -/
-def encodeStr (key : σ → Nat) (p : Path σ α) : String := "/".intercalate ((encode key p).map toString)
+def encodeStr (key : σ → Nat) (p : Path σ α) : String := String.ofList (encodeChars (encode key p))
 
 def intoStates (p : Path σ α) : List σ := p.map (·.1)
 def intoActions (p : Path σ α) : List α := p.filterMap (·.2)
@@ -105,12 +111,13 @@ def splitSlash : List Char → List (List Char)
 /-- the fingerprint extraction of `states()`: one trailing `/` is dropped, the rest is split at `/`,
 the pieces that parse are kept, and the request is refused unless exactly one piece (the empty one
 in front of the first `/`) failed to parse -/
-def parseFps (path : String) : Option (List Nat) :=
-  let cs := path.toList
+def parseFpsChars (cs : List Char) : Option (List Nat) :=
   let p := if cs.getLast? = some '/' then cs.dropLast else cs
   let segs := splitSlash p
   let fps := segs.filterMap parseFp
   if fps.length + 1 != segs.length then none else some fps
+
+def parseFps (path : String) : Option (List Nat) := parseFpsChars path.toList
 
 /-- one element of the JSON answer -/
 inductive Row (σ α : Type) where
